@@ -180,6 +180,13 @@ func asm15Exec(c *Ctx, op string) {
 		tdLog = append([]string(nil), log[n0:]...)
 		tdErr = terr != nil
 		out += fmt.Sprintf(" td=%s tderr=%v", strings.Join(tdLog, ","), tdErr)
+		// a caller that retries the teardown (say, after it failed) gets the same rule again: newest first, nothing
+		// deleted after a failure — the scripted janitors answer as before
+		n1 := len(log)
+		cleanup()
+		if again := strings.Join(log[n1:], ","); again != strings.Join(tdLog, ",") {
+			c.PropFail("teardown-order", fmt.Sprintf("the teardown function called a second time ran %s; the first time (same janitors, same answers) it ran %s", again, strings.Join(tdLog, ",")), op)
+		}
 	}
 	c.EmitR(op, "asm15 "+f[1]+" "+strings.ReplaceAll(strings.ReplaceAll(f[2], ",2", ",1"), ",3", ",0"), out)
 	// ---- C15 oracle, written directly from the property statement (independent of the Lean model) ----
